@@ -12,8 +12,8 @@ echo "== patch touches:"; grep '^+++ ' $P
 git apply -R --check $P 2>/dev/null || { echo "patch not currently applied; applying"; git apply $P || exit 2; }
 go build -o ti . || { echo "BUILD FAILED with change"; exit 1; }
 echo "== golden suite with change:"; (cd test && go test ./... -count=1 -parallel=4 2>&1 | tail -2)
-echo "== demo with change (expect non-zero):"; sh _mutation/demo/run.sh >/tmp/demo_with.log 2>&1; echo "rc=$?"; tail -5 /tmp/demo_with.log
+echo "== demo with change (expect non-zero):"; bash _mutation/demo/run.sh >/tmp/demo_with.log 2>&1; echo "rc=$?"; tail -5 /tmp/demo_with.log
 git apply -R $P || exit 2
 go build -o ti . || { echo "BUILD FAILED without change"; exit 1; }
-echo "== demo without change (expect 0):"; sh _mutation/demo/run.sh >/tmp/demo_without.log 2>&1; echo "rc=$?"; tail -3 /tmp/demo_without.log
+echo "== demo without change (expect 0):"; bash _mutation/demo/run.sh >/tmp/demo_without.log 2>&1; echo "rc=$?"; tail -3 /tmp/demo_without.log
 git apply $P
